@@ -240,13 +240,13 @@ def c17_extra(pid, tier, seed):
         v, mv, (TL, TI), L, I0 = want[op]
         t = impl.split()
         if t[:1] != ['ok'] or len(t) < 3:
-            viol.append(('P', '# C17 violated: Migrate of a clean segment fails\n# op: %s\n# implementation: %s\n' % (op[:600], impl[:300])))
+            viol.append(('P', '# ' + pid + ' violated: Migrate of a clean segment fails\n# op: %s\n# implementation: %s\n' % (op[:600], impl[:300])))
             continue
         if v == mv:
             if t[1] != L or [x for x in t[3:] if x.startswith('steps=')] != ['steps=']:
-                viol.append(('P', '# C17 violated: Migrate to the version the segment already has changes it\n# op: %s\n# implementation: %s\n' % (op[:600], impl[:600])))
+                viol.append(('P', '# ' + pid + ' violated: Migrate to the version the segment already has changes it\n# op: %s\n# implementation: %s\n' % (op[:600], impl[:600])))
         elif t[1] != TL or t[2] != TI or any(x.startswith('extra:') for x in t[3:]):
-            viol.append(('P', '# C17 violated: the migrated segment is not what an independent encoder of the documented layout writes for '
+            viol.append(('P', '# ' + pid + ' violated: the migrated segment is not what an independent encoder of the documented layout writes for '
                               'the same messages in the target version (log, derived index, nothing else left behind)\n# op: %s\n# implementation: %s\n'
                               '# encoder: %s %s\n' % (op[:600], impl[:600], TL[:300], TI[:300])))
         elif impl != model:
@@ -261,13 +261,22 @@ def c17_extra(pid, tier, seed):
         f = op.split()
         t = impl.split()
         if t[:3] != ['ok', f[6], f[7]] or 'steps=' not in t:
-            viol.append(('P', '# C17 violated: migrating twice is not the same as once\n# op: %s\n# implementation: %s\n' % (op[:600], impl[:600])))
+            viol.append(('P', '# ' + pid + ' violated: migrating twice is not the same as once\n# op: %s\n# implementation: %s\n' % (op[:600], impl[:600])))
     cov = dict(segment_migrations=dict(segments=len(lines), migrated_again=len(res2),
                                        rule='encoder-written segments (0-5 messages, both versions, four index layouts, with and '
                                             'without index file) migrated to the other (15%: the same) version with either index '
                                             'version; result compared with the encoder\'s own files for the target version and, '
                                             'bytes and FS steps, with RecoverCrash.migrate_prog'))
     return viol, cov
+
+
+def c13_both(pid, tier, seed):
+    """the codec runs of C13, and the migration of encoder-written segments (a migrated message must read back identical
+    and the migrated files must be exactly the documented layout of the target version)"""
+    v1, c1 = c13_extra(pid, tier, seed)
+    v2, c2 = c17_extra(pid, tier, seed)
+    c1.update(c2)
+    return v1 + v2, c1
 
 
 def canon(m):
